@@ -569,9 +569,17 @@ Proof.
   - apply clex_all.
   - apply cpy_all; assumption.
   - apply ceq_all.
-  - cbn [kf] in K. cbn [model_obs spec_ok]. unfold conf_expected.
-    destruct region as [|p]; [reflexivity|].
-    do 3 (destruct p as [p|p|]; try discriminate; try reflexivity).
+  - discriminate.
+Qed.
+
+(* glue only: a conformance case outside every finding region expects "no law failed" - this says nothing about
+   rdflib or XSD, the judgement is made by the oracle in harness/c09.py *)
+Lemma conf_glue : forall fam region, kf (CConf fam region) = 0 ->
+  spec_ok (CConf fam region) (model_obs (CConf fam region)) = true.
+Proof.
+  intros fam region K. cbn [kf] in K. cbn [model_obs spec_ok]. unfold conf_expected.
+  destruct region as [|p]; [reflexivity|].
+  do 3 (destruct p as [p|p|]; try discriminate; try reflexivity).
 Qed.
 
 (* ------------------------------------------------------------------ *)
